@@ -1173,7 +1173,8 @@ PROP_THEOREMS = {
     "C13": ["C13_full_flush_is_stream_error", "C13_errors_are_sticky", "C13_nonfinish_after_finish",
             "C13_counts_within_offered_buffers", "C13_wf_of_constructors", "C13_inflate_on_stored_streams_partial",
             "C13_inflate_finish_on_fresh_object_partial",
-            "C13_ok_means_progress", "C13_progress_invariant_is_reachable"],
+            "C13_ok_means_progress", "C13_progress_invariant_is_reachable",
+            "C13_finish_on_truncated_stored_stream_is_buffer_error_partial"],
     "C19": ["C19_boundary_record_roundtrip", "C19_no_record_elsewhere",
             "C19_rebuilt_decoder_continues_stored_streams_partial"],
 }
